@@ -106,6 +106,10 @@ def session_oracle(plan, table):
             if not toks[-1].startswith('B:'):
                 return 'bestmove is not the last message of the search'
             bm, pm = bests[0]
+            # "…answers with exactly one bestmove taken from the last completed iteration": a search none of whose iterations
+            # completed (aborted inside iteration 1, no legal root move) has nothing to take a move from
+            if bm != '0000' and not any(inf['depth'] is not None and inf['depth'] >= 1 and inf['score'] != '-' for inf in infos):
+                return 'bestmove %s announced although no iteration of this search completed (it is not taken from the last completed iteration of THIS search)' % bm
             legal = table.legal[meta['pidx']] if meta['pidx'] is not None else None
             if legal is not None:
                 allowed = [m for m in legal if not meta['searchmoves'] or m in meta['searchmoves']]
@@ -355,6 +359,15 @@ def interrupt_stream(ctx, plans, table, npos, maxn):
             pl.pos(p, [], idx)
             pl.go(['infinite'], interrupt=('quitgo', n))
             plans.append(pl)
+        # an earlier COMPLETED search, then a search aborted inside its first iteration: nothing of the earlier search may leak
+        for n in sorted({1, 2, 1 + ctx.rng.below(6), 3 + ctx.rng.below(12)}):
+            pl = Plan('abort-in-first-iteration-after-completed-search')
+            pl.pos(p, [], idx)
+            pl.go(['depth', ctx.rng.pick(['1', '2', '3'])])
+            pl.go(['infinite'], interrupt=('stopgo', n))
+            pl.simple('board')
+            pl.go(['depth', '1'])
+            plans.append(pl)
         # several consecutive interrupted searches
         pl = Plan('consecutive-interrupts')
         pl.pos(p, [], idx)
@@ -475,6 +488,65 @@ def descending_stream(ctx, plans, table, n):
         plans.append(pl)
 
 
+def pv_follow_stream(ctx, plans, table, n):
+    """C08 / state carried between searches along the engine's OWN line: deeper search, then the game follows the first two
+    moves of the reported PV (so the next go takes the PV-continuation path: previous PV kept, ponder move played), then shallower
+    searches whose values must still be the exact minimax values of THAT position (judged by pv_follow_post from the FEN the
+    engine holds; the search model is not run: which PV is reported among equal lines is not determined)"""
+    pos = pick_positions(ctx, n)
+    for p in pos:
+        idx = table.add(p, [])
+        npieces = sum(1 for ch in p.split('_')[0] if ch.isalpha())
+        pl = Plan('pv-follow')
+        pl.nomodel = True
+        pl.pos(p, [], idx)
+        pl.go(['depth', '4' if npieces <= 8 else '3'])
+        pl.simple('pospv', ctx.rng.pick(['2', '2', '1', '3']))
+        pl.cur = None
+        pl.go(['depth', '1'])
+        pl.go(['depth', '2'])
+        pl.simple('pospv', '2')
+        pl.go(['depth', '1'])
+        plans.append(pl)
+
+
+def pv_follow_post(ctx, cases, impl):
+    vs, reqs, owners = [], [], []
+    for c, a in zip(cases, impl):
+        if c.stream != 'pv-follow':
+            continue
+        parts = a.split(' ; ')
+        cmds = c.req[len('session '):].split(' ; ')
+        if len(parts) != len(cmds):
+            continue
+        fen = None
+        for cmd, part in zip(cmds, parts):
+            if cmd.startswith('pospv') and part.startswith('F:'):
+                fen = part[2:]
+            elif cmd.startswith('go depth') and fen is not None:
+                infos, bests = parse_go_answer(part.split(' '))
+                d = int(cmd.split(' ')[2])
+                fin = [i for i in infos if i['depth'] == d and i['score'] != '-']
+                if fin:
+                    reqs.append('spec-search %s %d' % (fen, d))
+                    owners.append((c.req, d, fin[-1]['score'], bests[0][0] if bests else None, fen))
+    uniq = list(dict.fromkeys(reqs))
+    ans = dict(zip(uniq, core.run_model(uniq))) if uniq else {}
+    for r, (req, d, score, bm, fen) in zip(reqs, owners):
+        a = ans[r]
+        if a in ('nomoves', 'bad-request', 'badfen'):
+            continue
+        want, bestset = a.split(' ')[0], (a.split(' ')[1].split(',') if ' ' in a else [])
+        if score != want:
+            vs.append({'kind': 'property', 'stream': 'pv-follow', 'op': 'session', 'input': req, 'impl_output': 'position %s depth %d score %s' % (fen, d, score), 'spec_output': a,
+                       'why': 'after the game followed the engine\'s own PV, the depth-%d score %s of %s differs from the exact minimax value %s' % (d, score, fen, want)})
+        elif bm and bm != '0000' and bm not in bestset:
+            vs.append({'kind': 'property', 'stream': 'pv-follow', 'op': 'session', 'input': req, 'impl_output': 'bestmove %s' % bm, 'spec_output': a,
+                       'why': 'best move %s of %s does not attain the minimax value (moves that do: %s)' % (bm, fen, ','.join(bestset))})
+    ctx.notes.append('searches after following the engine\'s own PV compared with the verified evaluator: %d' % len(reqs))
+    return vs
+
+
 def Plan_badpos(pl, root, moves):
     """a position command the engine rejects (its move list contains an illegal move): the held position must stay"""
     pl.cmds.append(['pos', root] + list(moves))
@@ -486,6 +558,21 @@ def rejected_position_stream(ctx, plans, table, n):
     threads down the tree untouched: board read-back, search result, and the transposition table read back through the hook
     (`tt`: entries are looked up under the RECOMPUTED hash of the held position and its successors)"""
     gs = games(ctx, n, 12)
+    # a go before any successful position command: the engine searches its default board (the start position); the hashes
+    # the search threads down the tree must be those of that board
+    for variant in range(3):
+        pl = Plan('rejected-position')
+        pl.cur = table.add(START, [])
+        if variant == 1:
+            Plan_badpos(pl, START, ['e2e4', 'a1a1'])
+        elif variant == 2:
+            pl.simple('new')
+            Plan_badpos(pl, gs[0][0] if gs else START, ['zzzz'])
+        pl.simple('board')
+        pl.go(['depth', '2'])
+        pl.meta[-1]['fresh_value'] = True
+        pl.simple('tt', '1')
+        plans.append(pl)
     for g in gs:
         root, moves = g[0], g[1:]
         if len(moves) < 4:
@@ -1357,10 +1444,13 @@ def register(PROPS):
                             lambda c, pl, t: mated_corpus_stream(c, pl, t, c.scale(60, 1000)),
                             lambda c, pl, t: tt_stream(c, pl, t, c.scale(40, 600)),
                             lambda c, pl, t: multi_cycle_stream(c, pl, t, c.scale(10, 300)),
-                            lambda c, pl, t: descending_stream(c, pl, t, c.scale(40, 800))], minimax=True, extra_post=tt_post())
+                            lambda c, pl, t: descending_stream(c, pl, t, c.scale(40, 800)),
+                            lambda c, pl, t: pv_follow_stream(c, pl, t, c.scale(40, 800))], minimax=True,
+                           extra_post=lambda ctx, cs, impl: tt_post()(ctx, cs, impl) + pv_follow_post(ctx, cs, impl))
     PROPS['C08'] = dict(modules=['Inkayaku.Props.C08', 'Inkayaku.Props.C08Sim', 'Inkayaku.Props.C08Transp', 'Inkayaku.Props.C16Pv'], theorems=['Inkayaku.C08Transp.' + n for n in 'transp13 transp22 sameDraft_le3 hashInj_of_noCollision_le3 go_eq_spec_le3'.split()] + ['Inkayaku.C08Sim.' + n for n in 'quiescence_sim repetition_inert fuel_adequate negamax_node_sim negamax_eq_spec go_eq_spec go_eq_spec_le2'.split()] + ['Inkayaku.C16Pv.mate_pv'] + ['Inkayaku.C08.' + n for n in 'quiescence_clamp quiescence_ok ab_ok root_exact order_irrelevant best_move_optimal ab_tt_ok root_exact_tt engine_order_is_permutation search_eq_mm specValue_eq_mm specValue_order_irrelevant specBestMoves_eq_optimal search_best_move_optimal mate_found mate_real'.split()], cases=c08c, post=c08p, anchors=ENGINE_ANCHORS)
     c09c, c09p = make_prop([lambda c, pl, t: interrupt_stream(c, pl, t, c.scale(24, 300), c.scale(90, 250)),
-                            lambda c, pl, t: pending_stream(c, pl, t, c.scale(20, 300))])
+                            lambda c, pl, t: pending_stream(c, pl, t, c.scale(20, 300)),
+                            lambda c, pl, t: terminal_after_search_stream(c, pl, t, c.scale(15, 300))])
     PROPS['C09'] = dict(modules=['Inkayaku.Props.C09'], theorems=['Inkayaku.C09.' + n for n in 'quiescence_board negamax_board deepen_board go_preserves_board go_preserves_inv session_preserves_board next_go_searches_same_position go_one_bestmove bestmove_from_last_completed_iteration bestmove_none_iff_no_completed_iteration'.split()] + ['Inkayaku.Search.boardLaws', 'Inkayaku.Search.unmake_make_of_generated', 'Inkayaku.Search.make_wf', 'Inkayaku.BoardCongr.make_congr', 'Inkayaku.BoardCongr.genPseudo_congr'], cases=c09c, post=c09p, anchors=ENGINE_ANCHORS)
     c16c, c16p = make_prop([lambda c, pl, t: multi_cycle_stream(c, pl, t, c.scale(60, 1500)),
                             lambda c, pl, t: terminal_after_search_stream(c, pl, t, c.scale(30, 600)),
